@@ -65,6 +65,8 @@ def gen_model(rng, n_ops=None, sinks=True, cmds=None, table=None, metadata=False
             usable = [c for c in usable if c in arr.FUZZY_OUTPUT] or usable
         cmd = rng.choice(usable)
         src = pool["fuzzy"] if cmd in arr.FUZZY_INPUT else pool["nonfuzzy"]
+        if cmd == "Copy" and pool["fuzzy"] and rng.random() < 0.5:
+            src = pool["fuzzy"]     # "any data result may feed any data input of compatible fuzziness": Copy declares none
         style = arr.INPUT_STYLE[cmd]
         args = {}
         if style == "one":
